@@ -139,6 +139,8 @@ class Exec:
             return z3.RealVal(repr(v))
         if isinstance(v, str):
             return z3.StringVal(v)
+        if isinstance(v, bytes):
+            return z3.StringVal(v.decode('latin1'))      # bytes and text share the abstract string sort (UTF-8 identity on the names used, T3)
         if isinstance(v, Rat):
             return z3.ToReal(self.toz(v.num)) / z3.ToReal(self.toz(v.den))
         if isinstance(v, z3.ExprRef):
@@ -220,7 +222,7 @@ class Exec:
         if isinstance(v, OptV):
             return v.isnone
         if isinstance(v, z3.ExprRef) and v.sort().kind() == z3.Z3_DATATYPE_SORT and v.sort().name().startswith('Opt_'):
-            return v == v.sort().none
+            return v == v.sort().constructor(0)()
         return False
 
     # ------------------------------------------------------------------ expressions
@@ -918,10 +920,10 @@ class Exec:
         """coerce a value into a z3 term of `sort` (Option sorts: None -> none, x -> some(x))"""
         if sort.kind() == z3.Z3_DATATYPE_SORT and sort.name().startswith('Opt_'):
             if v is None:
-                return sort.none
+                return sort.constructor(0)()
             if isinstance(v, z3.ExprRef) and v.sort() == sort:
                 return v
-            return sort.some(self.to_sort(v, sort.constructor(1).domain(0)))
+            return sort.constructor(1)(self.to_sort(v, sort.constructor(1).domain(0)))
         if isinstance(v, z3.ExprRef) and v.sort() == sort:
             return v
         if self.toz_hook is not None:
@@ -1509,12 +1511,22 @@ class Exec:
         for _, f in spec.inv(self, env):
             self.assume(f)
         if self.truth(self.ev(s.test, env)):
+            stack = self.__dict__.setdefault('loop_stack', [])
+            if hasattr(spec, 'explore_body') and not spec.explore_body(stack):
+                # the body of this loop is verified once, from a generic invariant state, in its designated context (DESIGN 2.3 loops);
+                # here only "invariant holds on entry" and the exit continuation are needed
+                raise CutPath()
+            stack.append(key)
             try:
                 self.block(s.body, env)
             except Cont:
                 pass
             except Brk:
+                stack.pop()
                 return
+            finally:
+                if stack and stack[-1] == key:
+                    stack.pop()
             for name, f in spec.inv(self, env):
                 self.oblig.append((f'{tag} invariant preserved: {name}', f))
             if hasattr(spec, 'decreases'):
